@@ -7,6 +7,8 @@
 package main
 
 import (
+	"bytes"
+	"compress/gzip"
 	"encoding/json"
 	"errors"
 	"fmt"
@@ -48,6 +50,11 @@ type Config struct {
 	ErrSrc  int      `json:"errsrc"` // source with an injected read error (-1: none)
 	ErrAt   int      `json:"errat"`  // the error replaces the answer of this read (0-based) of that source; -1: the open fails
 	Bound   int      `json:"bound"`
+	// files path with -z: Gz[i] says that source i is stored gzip-compressed
+	// (Sources[i] is its decompressed text); the others are plain files that
+	// must be "read from their first byte"
+	Gunzip bool   `json:"gunzip,omitempty"`
+	Gz     []bool `json:"gz,omitempty"`
 }
 
 const (
@@ -58,6 +65,21 @@ const (
 )
 
 var errInjected = errors.New("injected read error")
+
+var gzCache = map[string][]byte{}
+
+// gzBytes: one gzip member holding s (deterministic: no name, no time).
+func gzBytes(s string) []byte {
+	if b, ok := gzCache[s]; ok {
+		return b
+	}
+	var buf bytes.Buffer
+	zw, _ := gzip.NewWriterLevel(&buf, gzip.BestSpeed)
+	zw.Write([]byte(s))
+	zw.Close()
+	gzCache[s] = buf.Bytes()
+	return gzCache[s]
+}
 
 // ---------------------------------------------------------------- reference (independent of rare)
 
@@ -282,7 +304,11 @@ func body(c *Config, o *obs) {
 		for i, content := range c.Sources {
 			n := srcName(c, i)
 			idx[n] = i
-			fs.Put(n, []byte(content))
+			data := []byte(content)
+			if c.Gunzip && i < len(c.Gz) && c.Gz[i] {
+				data = gzBytes(content)
+			}
+			fs.Put(n, data)
 			names.Send(n)
 		}
 		names.Close()
@@ -312,7 +338,7 @@ func body(c *Config, o *obs) {
 			o.delivered[i] += n
 			return n, nil
 		}
-		b = batchers.OpenFilesToChan(names, false, c.Readers, c.Batch, c.Buffer)
+		b = batchers.OpenFilesToChan(names, c.Gunzip, c.Readers, c.Batch, c.Buffer)
 	}
 	var ig extractor.IgnoreSet
 	if c.Ignore != "" {
@@ -726,6 +752,34 @@ func configs(prop, tier string) []*Config {
 				}
 			}
 		}
+		// -z: "gzip content is delivered decompressed and non-gzip files are read
+		// from their first byte", with short reads as choices while the gzip
+		// header is probed (no injected error: what a failing probe read means
+		// for the count of read errors the statement does not say)
+		type gzc struct {
+			src []string
+			gz  []bool
+		}
+		gzs := []gzc{
+			{[]string{shapes[2], shapes[3]}, []bool{true, false}},
+			{[]string{shapes[1], shapes[6]}, []bool{false, true}},         // a 1-byte plain file: shorter than a gzip header
+			{[]string{"\x1f\x8bzz\nb\n", shapes[2]}, []bool{false, true}}, // plain text that starts with the gzip magic
+			{[]string{shapes[0], shapes[8]}, []bool{false, false}},        // an empty file and a plain one
+			{[]string{shapes[5], shapes[4]}, []bool{true, true}},
+		}
+		for _, g := range gzs {
+			for _, readers := range []int{1, 2} {
+				for _, batch := range []int{1, 2} {
+					if quick && batch == 2 && readers == 2 {
+						continue
+					}
+					c := Config{Path: "files", Sources: g.src, Gz: g.gz, Gunzip: true, Matcher: "always", Extract: exFull, Batch: batch, Workers: 1, Readers: readers, Buffer: 1, Chunk: true}
+					c.Bound = bound
+					c.ErrSrc = -1
+					out = append(out, &c)
+				}
+			}
+		}
 		for _, s := range []int{2, 8, 6} {
 			for errAt := 0; errAt <= 3; errAt++ {
 				c := Config{Path: "reader", Sources: []string{shapes[s]}, Matcher: "re", Extract: exFull, Batch: 2, Workers: 1, Readers: 1, Buffer: 1, Chunk: true}
@@ -800,6 +854,13 @@ func configs(prop, tier string) []*Config {
 	return out
 }
 
+func c06Prefix(c *Config) string {
+	if c.Gunzip {
+		return "C06/gunzip/"
+	}
+	return "C06/with-failing-input/"
+}
+
 type Case struct {
 	Config *Config  `json:"config"`
 	Vector []int    `json:"vector"`
@@ -854,7 +915,7 @@ func worker(w *runner.W) {
 						w.Violation("C01/race/"+strings.TrimPrefix(f.sig, "C05/race/"), "unsynchronised access to state the classification of lines depends on (with real parallelism lines can be matched on another line's data)\n"+f.detail, Case{Config: c, Vector: ex.Vector()})
 					} else if w.Prop == "C06" && (f.prop == "C01" || (f.prop == "C05" && !strings.HasPrefix(f.sig, "C05/race"))) {
 						// with a failing input: lost or duplicated lines of the other inputs, deadlocks
-						w.Violation("C06/with-failing-input/"+f.sig, f.detail, Case{Config: c, Vector: ex.Vector()})
+						w.Violation(c06Prefix(c)+f.sig, f.detail, Case{Config: c, Vector: ex.Vector()})
 					}
 				}
 				key := strings.Join(o.arrival, ",") + "#" + strconv.Itoa(len(o.snaps)) + "#" + fmt.Sprint(o.renderStart)
@@ -910,7 +971,7 @@ func replay(w *runner.W, raw json.RawMessage) {
 		} else if w.Prop == "C01" && strings.HasPrefix(f.sig, "C05/race/") {
 			w.Violation("C01/race/"+strings.TrimPrefix(f.sig, "C05/race/"), f.detail, c)
 		} else if w.Prop == "C06" && (f.prop == "C01" || (f.prop == "C05" && !strings.HasPrefix(f.sig, "C05/race"))) {
-			w.Violation("C06/with-failing-input/"+f.sig, f.detail, c)
+			w.Violation(c06Prefix(c.Config)+f.sig, f.detail, c)
 		}
 	}
 	_ = res
@@ -923,7 +984,7 @@ func main() {
 		Properties: []string{"C01", "C02", "C05", "C06"},
 		Level:      "model_checking",
 		Rule: func(prop, tier string) string {
-			return "real batcher + extractor workers + consumer (C01/C02) or helpers.RunAggregationLoop with a monitored counter aggregator and status-line readers (C05), compiled onto the controlled runtime; for every configuration of the grid (input shapes over {a,b,CR,LF} incl. CRLF, empty lines, no trailing newline, a line longer than the 4-byte read buffer; batch 1-3, workers 1-2 and 0/-1 (= the default of two), readers 1-2, batch-buffer 1-2; regex/dissect/always matcher; extract/ignore expressions) every schedule with at most 2 (quick) / 3 (thorough) deviations (one more for four small, maximally concurrent configurations of C01/C02 and one of C05) from the default scheduler (delay bounding: run until blocked, then the next goroutine in cyclic order) (preemptions at channel/mutex/atomic/waitgroup/go operations, 1-byte short reads, 250ms clock jumps at clock readings, firing of the 100ms render timer while work is runnable) is executed; blocking switches and select choices are free. States = distinct (configuration, emission order, render positions) outcomes; transitions = scheduling steps. Non-trivial = at least one goroutine switch."
+			return "real batcher + extractor workers + consumer (C01/C02) or helpers.RunAggregationLoop with a monitored counter aggregator and status-line readers (C05), compiled onto the controlled runtime; for every configuration of the grid (input shapes over {a,b,CR,LF} incl. CRLF, empty lines, no trailing newline, a line longer than the 4-byte read buffer; for C06 also -z with gzip-compressed and plain sources (a 1-byte file, text starting with the gzip magic, an empty file) under short reads; batch 1-3, workers 1-2 and 0/-1 (= the default of two), readers 1-2, batch-buffer 1-2; regex/dissect/always matcher; extract/ignore expressions) every schedule with at most 2 (quick) / 3 (thorough) deviations (one more for four small, maximally concurrent configurations of C01/C02 and one of C05) from the default scheduler (delay bounding: run until blocked, then the next goroutine in cyclic order) (preemptions at channel/mutex/atomic/waitgroup/go operations, 1-byte short reads, 250ms clock jumps at clock readings, firing of the 100ms render timer while work is runnable) is executed; blocking switches and select choices are free. States = distinct (configuration, emission order, render positions) outcomes; transitions = scheduling steps. Non-trivial = at least one goroutine switch."
 		},
 		Assumptions: func(string) []string {
 			return []string{"ReadAheadBufferSize is overridden to 4 (scale only)", "sequentially consistent memory; unsynchronised accesses are reported by the vector-clock detector on struct fields and package variables of the instrumented packages, not on captured locals", "blocked senders on a full channel may be released in any order"}
